@@ -75,6 +75,7 @@ def compareSearch (name : String) (model : List Item) (ret : Int) (ind : List In
   else .ok
 
 def handleSearch (args res : List String) : Verdict :=
+  if res == ["!L"] then .bad "Load threw on the image written by Save" else
   match args.mapM parseI with
   | some [kind, _seed, n, bucket, _via, k, maxdist, mindist, exh, tol, _qseed] =>
     let (r0, rest) := splitAt "T" res
